@@ -253,7 +253,8 @@ where
     I: IntoIterator<Item = T>,
   {
     let iter = iter.into_iter();
-    let size: usize = iter.size_hint().1.unwrap_or(0);
+    // Pre-allocate the guaranteed lower bound only: the upper bound of an honest hint may be as large as usize::MAX.
+    let size: usize = iter.size_hint().0;
 
     let mut this: Self = Self::with_capacity(size);
 
